@@ -308,7 +308,9 @@ def endpointFromHintObj (tor : Bool) (t : Tcp) : Except Err (Option (J × J)) :=
       | _ => .error .attributeError
     | .tor => .ok none
 
-/-- `describe_hint_obj`: `"tcp:%s:%d" % (hostname, port)` needs a number for `%d` -/
+/-- `describe_hint_obj`: `"tcp:%s:%d" % (hint.hostname, hint.port)`.  `%d` needs a number; `%s` of the
+    peer-chosen hostname never raises, whatever characters it holds (pinned by the `return …` rows of
+    `describe_hint_obj` in `expectedGuards`: no encoding / conversion of the hostname on this path) -/
 def describeHintObj (t : Tcp) : Except Err Unit :=
   match t.port.num? with
   | some _ => .ok ()
@@ -559,50 +561,80 @@ def Dil.init (tor noListen ownRelayCfg : Bool) (mgr : Manager.State) : Except Er
 
 /-! ## what the translator saw in the source (tie: `Props.C20.guards_agree`)
 
-Every `if` test and every access to peer-controlled data (`.get`, `x["k"]`, `"k" in x`) of the
-modelled functions, in source order, as `ast.unparse` prints them.  The model above was written
+Every `if` test, every access to peer-controlled data (`.get`, `x["k"]`, `"k" in x`), every loop
+header, `sorted`/`filter` call, `raise` and every returned expression of the ten modelled functions
+(`describe_hint_obj` included: its rows pin that the hostname is formatted with a plain `%s`), in
+source order, as `ast.unparse` prints them.  The model above was written
 against exactly this list; `tools/extract.py` regenerates `Gen.HintGuards.table` from the working
 tree on every run and `guards_agree` compares the two. -/
 def expectedGuards : List (String × List String) := [
   ("parse_tcp_v1_hint", [
     "if not isinstance(hint, dict)",
+    "return None",
     "get hint.get('type', '')",
     "if hint_type not in ['direct-tcp-v1', 'tor-tcp-v1']",
+    "return None",
     "if not ('hostname' in hint and isinstance(hint['hostname'], str))",
     "in 'hostname' in hint",
     "index hint['hostname']",
+    "return None",
     "if not ('port' in hint and isinstance(hint['port'], int) and (not isinstance(hint['port'], bool)))",
     "in 'port' in hint",
     "index hint['port']",
     "index hint['port']",
+    "return None",
     "get hint.get('priority', 0.0)",
     "if isinstance(priority, bool) or not isinstance(priority, (int, float))",
+    "return None",
     "if hint_type == 'direct-tcp-v1'",
+    "return DirectTCPV1Hint(hint['hostname'], hint['port'], priority)",
     "index hint['hostname']",
     "index hint['port']",
+    "return TorTCPV1Hint(hint['hostname'], hint['port'], priority)",
     "index hint['hostname']",
     "index hint['port']"]),
   ("parse_hint", [
     "if not isinstance(hint_struct, dict)",
+    "return None",
     "get hint_struct.get('type', '')",
     "if hint_type == 'relay-v1'",
     "get hint_struct.get('hints', [])",
     "if not isinstance(sub_hints, list)",
     "call filter(lambda h: h, [parse_tcp_v1_hint(rh) for rh in sub_hints])",
-    "for rh in sub_hints"]),
+    "for rh in sub_hints",
+    "return RelayV1Hint(list(rhints))",
+    "return parse_tcp_v1_hint(hint_struct)"]),
   ("encode_hint", [
     "if isinstance(h, DirectTCPV1Hint)",
+    "return {'type': 'direct-tcp-v1', 'priority': h.priority, 'hostname': h.hostname, 'port': h.port}",
     "if isinstance(h, RelayV1Hint)",
     "for rh in h.hints",
     "index rhint['hints']",
+    "return rhint",
     "if isinstance(h, TorTCPV1Hint)",
+    "return {'type': 'tor-tcp-v1', 'priority': h.priority, 'hostname': h.hostname, 'port': h.port}",
     "raise ValueError('unknown hint type', h)"]),
   ("endpoint_from_hint_obj", [
     "if tor",
     "if isinstance(hint, (DirectTCPV1Hint, TorTCPV1Hint))",
+    "return tor.stream_via(hint.hostname, hint.port)",
+    "return None",
+    "return None",
     "if isinstance(hint, DirectTCPV1Hint)",
     "if isIPAddress(hint.hostname)",
-    "if isIPv6Address(hint.hostname)"]),
+    "return TCP4ClientEndpoint(reactor, hint.hostname, hint.port)",
+    "if isIPv6Address(hint.hostname)",
+    "return TCP6ClientEndpoint(reactor, hint.hostname, hint.port)",
+    "return HostnameEndpoint(reactor, hint.hostname, hint.port)",
+    "return None"]),
+  ("describe_hint_obj", [
+    "ifexp tor",
+    "if relay",
+    "if isinstance(hint, DirectTCPV1Hint)",
+    "return prefix + 'tcp:%s:%d' % (hint.hostname, hint.port)",
+    "if isinstance(hint, TorTCPV1Hint)",
+    "return prefix + 'tor:%s:%d' % (hint.hostname, hint.port)",
+    "return prefix + str(hint)"]),
   ("Common.add_connection_hints", [
     "for h in hints",
     "if not isinstance(h, dict)",
@@ -628,7 +660,8 @@ def expectedGuards : List (String × List String) := [
     "for hint_obj in prioritized_relays[priority]",
     "if not ep",
     "if not contenders",
-    "raise TransitError('No contenders for connection')"]),
+    "raise TransitError('No contenders for connection')",
+    "return self._not_forever(2 * TIMEOUT, winner)"]),
   ("Manager.use_hints", [
     "call filter(lambda h: h, [parse_hint(hs) for hs in hint_message['hints']])",
     "for hs in hint_message['hints']",
